@@ -247,14 +247,24 @@ impl Prop for C02 {
             },
             Stage {
                 name: "huge",
-                kind: StageKind::Enumerate { scope: "5 fixed line texts: 2 with 70 000 / 66 000 distinct lines (token ids beyond 16 bits, once with both sides below 65 536 lines), and per algorithm 1100 x 1100 unrelated distinct lines between a common head and tail (LCS table beyond 2^20 cells); 6 sequence diffs with thousands of ops (every third of 7000 items removed, an item inserted after every third of 6000, every fourth of 5000 replaced; Myers, Patience)".into(), exhaustive: true, gen: |_t, f| {
+                kind: StageKind::Enumerate { scope: "texts of exactly N / N+1 tokens for N at and around the powers of two from 64 to 8192 (lines, words, chars; every algorithm, LCS up to 1025 tokens); 5 fixed line texts: 2 with 70 000 / 66 000 distinct lines (token ids beyond 16 bits, once with both sides below 65 536 lines), and per algorithm 1100 x 1100 unrelated distinct lines between a common head and tail (LCS table beyond 2^20 cells); near-identical sequences of N / N+1 items for N at and around the powers of two from 64 to 8192 per algorithm (LCS up to 1025); 6 sequence diffs with thousands of ops (every third of 7000 items removed, an item inserted after every third of 6000, every fourth of 5000 replaced; Myers, Patience)".into(), exhaustive: true, gen: |_t, f| {
                     for c in huge_line_cases() {
+                        if !f(Case::Text(c)) {
+                            return;
+                        }
+                    }
+                    for c in pow2_text_cases() {
                         if !f(Case::Text(c)) {
                             return;
                         }
                     }
                     // diffs with thousands of ops in one script (beyond 4096 raw ops)
                     for c in many_ops_cases() {
+                        if !f(Case::Seq(c)) {
+                            return;
+                        }
+                    }
+                    for c in pow2_seq_cases(1025) {
                         if !f(Case::Seq(c)) {
                             return;
                         }
